@@ -4,7 +4,8 @@
    re-checked here in exact arithmetic: norms by n^2 ~ sum of squares, the assignment against the brute force
    over all r! matchings (by VALUE: ties are allowed), the SVD by U^T U ~ I and U S V^T ~ M. *)
 From Coq Require Import List Arith ZArith QArith Qabs Bool.
-From TLV Require Import Base.Shape Base.PyList Base.Tensor Base.Ops Model.Metrics Model.MetricsSrc Corr.Common.
+From TLV Require Import Base.Shape Base.PyList Base.Tensor Base.Ops Model.Metrics Model.MetricsSrc Model.MetricsPermute Corr.Common.
+From TLV Require Model.Transforms.
 Import ListNotations.
 
 Definition tol : Q := Qmake 1 1000000000.          (* 1e-9 : values through sqrt / division *)
@@ -71,6 +72,8 @@ Inductive body :=
 | KPermute (ref fs : list (mat Q)) (w : list Q) (nas nbs : list (list Q)) (impl : res (list Q * list (mat Q) * list nat))
 | KPermuteList (ref : list (mat Q)) (nas : list (list Q)) (ts : list (list Q * list (mat Q) * list (list Q)))
                (impl : res (list (list Q * list (mat Q) * list nat)))
+(* cp_permute_factors with its cp_copy / cp_normalize glue (Model/MetricsPermute.v; cp_normalize = C04's model) *)
+| KPermuteFull (ref : ptensor Q) (arg : parg Q) (impl : res (list (list Q * list (mat Q) * list nat)))
 | KCorrIdx (meth : option cmethod) (ctol : Q) (f1 f2 : list (mat Q)) (n1 n2 : list (list Q)) (impl : res Q)
 | KLev (renorm : bool) (ltol : Q) (M U Vt : mat Q) (sv : list Q) (eps : Q) (impl : res (list Q))
 | KReg (which : nat) (axz : option Z) (yt yp : tensor Q) (exact : bool) (impl : res (tensor Q)) (src : option rform)
@@ -127,6 +130,7 @@ Definition agree_cong_dual absv As Bs nas nbs (vs : list Q) (brute : bool) (impl
   | _, _ => false
   end.
 
+Definition is_err {X} (r : res X) : bool := match r with Err => true | Ok _ => false end.
 Definition out_eqb (a b : list Q * list (mat Q) * list nat) : bool :=
   let '(w1, f1, p1) := a in let '(w2, f2, p2) := b in
   q_list_eqb w1 w2 && forallb2 mat_eqb f1 f2 && nat_list_eqb p1 p2.
@@ -160,6 +164,34 @@ Definition agree_permute_list ref nas (ts : list (list Q * list (mat Q) * list (
     | Err => false
     | Ok mouts =>
       forallb2 out_eqb mouts outs && tapes_ok ref nas && forallb (fun t => tapes_ok (snd (fst t)) (snd t)) ts &&
+      forallb2 (fun rc p => optimal_on (fst rc) (snd rc) p) rcs ps
+    end
+  end.
+
+(* cp_permute_factors, full model.  The tape of cp_normalize may contain exact zeros (a zero weight absorbed into factor 0) *)
+Definition norms0_okb (M : mat Q) (ns : list Q) : bool :=
+  Nat.eqb (length ns) (ncols M) &&
+  forallb (fun j => let n := nth j ns 0 in let s := col_sq Qops M j in
+                    (Qeq_bool n 0 && Qeq_bool s 0) ||
+                    (negb (Qle_bool n 0) && Qle_bool (Qabs (Qred (Qred (n * n) - s))) (Qred (tape_tol * s)))) (seq 0 (ncols M)).
+Definition norm_tapes_ok (t : ptensor Q) : bool :=
+  forallb2 norms0_okb (Transforms.norm_inputs Qops (pw t) (pfs t)) (pnorm t).
+Definition parg_list (a : parg Q) : bool * list (ptensor Q) := match a with PSingle t => (false, [t]) | PList ts => (true, ts) end.
+Definition cmat_full (ref : ptensor Q) (nrm : bool) (t : ptensor Q) : nat * mat Q :=
+  match cong_matrix Qops true (compared Qops true ref) (compared Qops nrm t) (pcong ref) (pcong t) with Ok rc => rc | Err => (0%nat, []) end.
+Definition agree_permute_full (ref : ptensor Q) (arg : parg Q) (impl : res (list (list Q * list (mat Q) * list nat))) : bool :=
+  let '(nrm, ts) := parg_list arg in
+  norm_tapes_ok ref && (if nrm then forallb norm_tapes_ok ts else true) &&
+  match impl with
+  | Err => is_err (cp_permute_factors_full Qops ref arg (fun _ => []))
+  | Ok outs =>
+    let ps := map snd outs in
+    let rcs := map (cmat_full ref nrm) ts in
+    match cp_permute_factors_full Qops ref arg (assign_tape (combine (map snd rcs) ps)) with
+    | Err => false
+    | Ok mouts =>
+      forallb2 out_eqb mouts outs && tapes_ok (compared Qops true ref) (pcong ref) &&
+      forallb (fun t => tapes_ok (compared Qops nrm t) (pcong t)) ts &&
       forallb2 (fun rc p => optimal_on (fst rc) (snd rc) p) rcs ps
     end
   end.
@@ -239,7 +271,6 @@ Definition agree_reg (which : nat) (ax : option nat) (yt yp : tensor Q) (exact :
 
 (* axis given as a tuple: MSE / RMSE / reflective correlation reduce over all listed axes; the covariance family indexes a
    Python list with the tuple and raises whatever the tuple is *)
-Definition is_err {X} (r : res X) : bool := match r with Err => true | Ok _ => false end.
 Definition agree_regT (which : nat) (zs : list Z) (yt yp : tensor Q) (exact : bool) (impl : res (tensor Q)) : bool :=
   match which with
   | 0%nat | 1%nat | 6%nat =>
@@ -291,6 +322,17 @@ Fixpoint src_agree (scs : option cong_src) (sci : option ci_src) (slv : option l
           end
       | _, _ => true
       end
+  | KPermuteFull ref arg impl =>
+      match spp, impl with
+      | Some pp, Ok outs =>
+          let '(nrm, ts) := parg_list arg in
+          let tape := assign_tape (combine (map snd (map (cmat_full ref nrm) ts)) (map snd outs)) in
+          match cp_permute_factors_full_src Qops pp ref arg tape, cp_permute_factors_full Qops ref arg tape with
+          | Ok a, Ok b => forallb2 out_eqb a b | Err, Err => true | _, _ => false
+          end
+      | Some pp, Err => is_err (cp_permute_factors_full_src Qops pp ref arg (fun _ => []))
+      | None, _ => true
+      end
   | KCorrIdx meth ctol f1 f2 n1 n2 _ =>
       match sci with
       | None => true
@@ -313,6 +355,7 @@ Fixpoint agree_body (b : body) : bool :=
   | KCongDual absv As Bs nas nbs vs brute impl => agree_cong_dual absv As Bs nas nbs vs brute impl
   | KPermute ref fs w nas nbs impl => agree_permute ref fs w nas nbs impl
   | KPermuteList ref nas ts impl => agree_permute_list ref nas ts impl
+  | KPermuteFull ref arg impl => agree_permute_full ref arg impl
   | KCorrIdx meth ctol f1 f2 n1 n2 impl => agree_corridx meth ctol f1 f2 n1 n2 impl
   | KLev renorm ltol M U Vt sv eps impl => agree_lev renorm ltol M U Vt sv eps impl
   | KReg which axz yt yp exact impl src =>
